@@ -34,6 +34,7 @@ type c11Event struct {
 }
 
 type c11Plan struct {
+	Globals bool         `json:"globals,omitempty"` // the program has globals named like the sinks' locals (event, id, acc)
 	Workers int          `json:"workers"`
 	Sinks   []c11Sink    `json:"sinks"`
 	Clients [][]c11Event `json:"clients"`
@@ -68,6 +69,7 @@ func c11Gen(r *simrt.RNG, tier string) interface{} {
 		}
 		p.Sinks = append(p.Sinks, s)
 	}
+	p.Globals = r.Bool(0.3)
 	nc := 2 + r.Intn(3)
 	id := 1
 	for c := 0; c < nc; c++ {
@@ -138,11 +140,20 @@ func c11Shrink(pi interface{}) []interface{} {
 		q.Workers = 2
 		out = append(out, q)
 	}
+	if p.Globals {
+		q := clone()
+		q.Globals = false
+		out = append(out, q)
+	}
 	return out
 }
 
 func c11Program(p *c11Plan) string {
 	var b strings.Builder
+	if p.Globals {
+		// names the sinks use for their own `event` value and `let` locals
+		b.WriteString("event := {\"state\": {\"id\": -1}, \"name\": \"global\"}\nid := -2\nacc := -3\ny := -4\n")
+	}
 	b.WriteString("func shared(x) {\n    let y := x\n    return y\n}\n")
 	for _, s := range p.Sinks {
 		var ks []string
